@@ -444,7 +444,7 @@ def check(run):
         if ent.get("shipped") is not None:
             jobs.append(lambda ent=ent: shipped_member(run, ent))
     # systematic product family (every combinator x every leaf in every operand position), deduplicated
-    NP = 2 if tier == "quick" else 6
+    NP = 2 if tier == "quick" else 4
     t0 = time.time()
     pm, pcomps, stats = A.product_family(tier, compile_timeout=20 if tier == "quick" else 120)
     run.log(f"product family: {stats} in {time.time() - t0:.1f}s")
